@@ -98,6 +98,8 @@ def run(tier, seed):
     # a project stopped at step k and started again with the states reset and the logs kept (the new life cycle is appended to the old records)
     linked = [it for it in its if it[0]["links"] and it[1]["rule"] == "TSLACK" and not it[1].get("auto_abs")]
     rs = stepcheck.restarted_items(linked[:: (4 if tier == "quick" else 1)], ks=(1, 2, 3, 4))
+    # continued with the states kept and the logs started afresh (the one flag pair that resets the logs only)
+    rs += stepcheck.restarted_items(linked[:: (5 if tier == "quick" else 2)], ks=(1, 2, 3, 4), flags=(False, True))
     col.merge(stepcheck.explore(rs, MONS, 0, 0, seed=seed))
     # a step width other than 1 with absence times that no step falls on: no step is an absence step, no state may go back
     ut = [(sp, dict(o, unit_time=u, absence=list(ab), max_time=o["max_time"] * u)) for sp, o in linked[:: (9 if tier == "quick" else 3)] for u, ab in ((2, (1, 3)), (2, (3,)), (3, (1, 2, 4)))]
